@@ -61,6 +61,59 @@ Example C01_example :
   snd (deliver ex_state 1000 (MSwap 10 0 1 1000000000000000000 0)) = true.
 Proof. vm_compute. repeat split; reflexivity. Qed.
 
+(* ---- the per-block processing of x/clp (Proofs/ClpHooksGap.v): for every token the module account holds exactly as much
+   beyond the recorded amounts after the hook as before it ---- *)
+From Sif Require Proofs.ClpHooksGap Model.ClpEpoch Model.ClpHooks Base.SdkMath.
+Module HG := Sif.Proofs.ClpHooksGap.
+(* AfterEpochEnd: the rewards buckets paid out to wallets or re-invested into the pools (failed payments and failed
+   re-investments included). Premise: no provider record is keyed by the module account. *)
+Theorem C01_epoch_hook : forall s s',
+  Forall (fun kv => HG.no_module_lp (snd kv)) (cs_lps s) -> Sif.Model.ClpEpoch.after_epoch_end s = Ok s' -> forall d, gap s' d = gap s d.
+Proof. exact HG.after_epoch_end_gap. Qed.
+Print Assumptions C01_epoch_hook.
+(* EndBlocker, provider distribution: what leaves the pools' native balances is what the providers are paid (payments
+   that fail are put back). Premises: pools in key order; a pool with providers has a non-negative native balance,
+   positive units and providers with non-negative units other than the module account; period rates in [0,1] (validated). *)
+Theorem C01_provider_distribution : forall s s',
+  HG.lppd_ready s -> Forall (fun p => 0 <= pd_rate p <= Sif.Base.SdkMath.PREC) (cs_lppd_periods s) ->
+  Sif.Model.ClpHooks.lppd_run s = Ok s' -> forall d, gap s' d = gap s d.
+Proof. exact HG.lppd_run_gap. Qed.
+Print Assumptions C01_provider_distribution.
+(* EndBlocker, depth rewards: what is minted is added to the pools (accumulation) or paid to the providers, the rest
+   burned (distribution). Premises: pools in key order with non-negative native balances, every pool has providers,
+   well-formed reward periods, the module account's balance is not negative. *)
+Theorem C01_depth_rewards : forall s s' minted burned,
+  HG.rewards_ready s -> Sif.Model.ClpHooks.rewards_run s = Ok (s', minted, burned) -> forall d, gap s' d = gap s d.
+Proof. exact HG.rewards_run_gap. Qed.
+Print Assumptions C01_depth_rewards.
+Theorem C01_end_block : forall s s' minted burned,
+  HG.lppd_ready s -> Forall (fun p => 0 <= pd_rate p <= Sif.Base.SdkMath.PREC) (cs_lppd_periods s) ->
+  (forall s1, Sif.Model.ClpHooks.lppd_run s = Ok s1 -> HG.rewards_ready s1) ->
+  Sif.Model.ClpHooks.end_block s = Ok (s', minted, burned) -> forall d, gap s' d = gap s d.
+Proof. exact HG.end_block_gap. Qed.
+Print Assumptions C01_end_block.
+
+(* non-vacuity: a block in which both the provider distribution (1 %) and the depth rewards (accumulation) run *)
+Definition ex_hook_state : clp_state :=
+  mkClp (mkBank [(1, [(0, 5000000000000000000000); (1, 7000000000000000000000)]);
+                 (10, [(0, 9000000000000000000000)]); (11, [(0, 1000000000000000000)])] [])
+        [(1, mkPool 5000000000000000000000 7000000000000000000000 5000000000000000000000 0 0 0 0 0 0)]
+        [(1, [(10, mkLp 4000000000000000000000 [] 2); (11, mkLp 1000000000000000000000 [] 2)])] [] 0
+        [mkRP 3 12 1000000000000000000000 [] 1000000000000000000 false 1] [mkPD 10000000000000000 4 9 1] 5 ex_params.
+Example C01_end_block_example :
+  HG.lppd_ready ex_hook_state /\
+  match Sif.Model.ClpHooks.end_block ex_hook_state with
+  | Ok (s', minted, _) => (gap s' 0 = gap ex_hook_state 0) /\ (minted = 100000000000000000000) /\
+                          (bal (cs_bank s') 10 0 = 9040000000000000000000) /\ (bal (cs_bank s') 11 0 = 11000000000000000000)
+  | _ => False
+  end.
+Proof.
+  split.
+  - split; [exists 0; cbn; auto with zarith|]. intros a pl [E|[]] _. injection E as <- <-. vm_compute.
+    split; [discriminate|]. split; [reflexivity|]. repeat constructor; cbn; try discriminate.
+  - vm_compute. repeat split; reflexivity.
+Qed.
+
 (* ---- x/margin (model of Model/Margin.v): what the module account holds beyond what the position's pool records
    (balance + custody, native and external side) is unchanged, and no other denomination of the module account
    moves, by Open, Close, AdminClose and by the begin blocker's processing of a position whatever its outcome ---- *)
